@@ -195,9 +195,11 @@ CLAIMED = {
  'C18': dict(
    text='Coq theorems: for every permutation of the replicate indices (any scheduling by any number of workers) filing each result under its index gives exactly the standalone runs with seeds '
         'reseed_gen base i (REGENERATED from single_run: base + i), members have pairwise distinct seeds; the mean and every quantile (linear interpolation on the sorted members) are invariant '
-        'under permutation of the members. On real runs: member seeds = reseed_gen (Coq); every member of multi_run / MultiSim (serial, parallel with 1/2/4 workers, in-place on/off, list of sims, '
-        'debug) is compared bit for bit with the standalone run of seed base + i; reduce() is compared with NumPy statistics, with the model quantile / mean in Coq, and across member permutations.',
-   note='PARTIAL: a standalone run as a function of its seed is C01`s conclusion (abstract); process-level scheduling, pickling and the in-place __dict__ update are exercised, not modelled. '
+        'under permutation of the members, as is the variance; every quantile and the mean lie between the smallest and largest member, the 0- and 1-quantiles ARE those members, a larger q never '
+        'gives a smaller value (low <= median <= high); in-place updating gives the caller`s i-th object exactly the state of the standalone run with seed base + i, keeps the count and is refused on a '
+        'length mismatch (MultiSim.run shape-pinned). On real runs: member seeds = reseed_gen (Coq); every member of multi_run / MultiSim (serial, parallel with 1/2/4 workers, in-place on/off, list of sims, '
+        'debug) is compared bit for bit with the standalone run of seed base + i; reduce() is compared with NumPy statistics, with the model quantile / mean / variance in Coq, for low <= median <= high within the members` range, and across member permutations.',
+   note='PARTIAL: a standalone run as a function of its seed is C01`s conclusion (abstract); process-level scheduling and pickling are exercised, not modelled; the in-place __dict__ update is modelled as taking over the whole state. '
         'Quantile invariance is proved for integer-valued members (Leibniz order), the mean over Q. Fixed: MultiSim debug mode raised. Closed under the global context.',
    technique='Coq proofs of schedule- and order-invariance over the generated reseeding formula + bit-exact comparison of multi-run members with standalone runs',
    design='5 C18'),
